@@ -7,7 +7,7 @@ Definition ok_run (r : outcome (N * server_data) * cst) (uid : N) (out : list cm
   (exists sd, fst r = Ok (uid, sd)) /\ s_out (snd r) = out /\ s_in (snd r) = [].
 
 Definition ex_sent : list cmsg :=
-  [CR 0 0; CI 366 0; ED; AU; CJ 3 1003; CJ 3 1004; INFO 3 1003 38].
+  [CR 0 0; CI 366 0; ED; AU; CJ 3 1003; CJ 3 1004; INFO 3 1003 228].
 
 (* the valid conversation drives the model to Ok (both profiles, two fragmentations), with
    the complete client side of the sequence emitted and the whole input consumed *)
